@@ -69,7 +69,7 @@ def refactors_table():
         m = json.load(open(p))
         what = " ".join((m.get("what") or "").strip().split("\n")[:2]).lstrip("# ").replace("|", "/")[:170]
         cr = m.get("check_result")
-        res = ("stayed green (exit 0)" if cr.get("stayed_green") else "FALSE ALARM (%s)" % cr.get("exit")) if isinstance(cr, dict) else "not yet run"
+        res = ("stayed green (exit 0)" if cr.get("stayed_green") else ("not run: " + "; ".join(cr.get("reports") or [])[:120] if cr.get("stayed_green") is None else "FALSE ALARM (%s)" % cr.get("exit"))) if isinstance(cr, dict) else "not yet run"
         rows.append("| %s | %s | %s | %s |" % (d, m.get("property"), what, res))
     return "\n".join(rows)
 
